@@ -444,11 +444,19 @@ def str_at(s, i):
     return ""
 
 
+class EvalBudget(NoSemantics):
+    """Evaluation needs more steps than the budget (deeply nested binders): inconclusive."""
+
+
 class Evaluator(object):
-    def __init__(self, interp, cards=None):
+    BUDGET = 60000
+
+    def __init__(self, interp, cards=None, budget=None):
         self.interp = interp
         self.cards = cards or {}
         self.tmemo = {}
+        self.steps = 0
+        self.budget = budget or self.BUDGET
 
     def ty(self, bp):
         return reftype(bp, self.tmemo)
@@ -461,6 +469,9 @@ class Evaluator(object):
         hit = memo.get(k)
         if hit is not None and hit[0] is bp:
             return hit[1]
+        self.steps += 1
+        if self.steps > self.budget:
+            raise EvalBudget("evaluation budget exceeded")
         v = self._ev1(bp, bound, memo)
         memo[k] = (bp, v)
         return v
